@@ -6,5 +6,5 @@ CONSTANTS
   NBZ = 2
   MaxSteps = 24
 SPECIFICATION Spec
-INVARIANT Emit Laws
+INVARIANT Emit Laws ChainAlgCorrect
 CHECK_DEADLOCK FALSE
